@@ -1,4 +1,5 @@
 import GateModel.C02.Lemmas
+import GateModel.C02.Stream
 /-
 C02 — Frame decoding matches the vanilla/Velocity acceptance rules on hostile byte streams.
 
@@ -17,6 +18,11 @@ The reference (`Spec.lean`) is Velocity's frame + compress decoder transcribed b
                         yield an empty payload are covered per frame (`frame_agrees` skip case) but not by the
                         stream theorem, because gate gives up after 11 consecutive empty frames
                         (`empty_frame_cap_deviates`, recorded finding) where Velocity does not.
+  * `stream_agrees_bounded_empty_runs`  the FULL stream statement: any stream of complete frames — zero-length
+                        frames, frames opening to an empty payload, rejected frames included — in which at most
+                        11 empty-payload frames follow each other decodes to the same payloads and the same
+                        ending as in Velocity; `twelve_empty_frames_rejected` is the converse (the finding,
+                        for every stream).  Together they characterise the deviation exactly.
   * totality: `readPayload`, `readPacket`, `decodeAll` are total Lean functions — the model cannot hang.
 -/
 namespace Gate.C02.Props
@@ -92,6 +98,33 @@ theorem stream_agrees_partial (cfg : Cfg) (Z : Bytes → Option Bytes) (fs : Lis
     decodeAll cfg Z f1 (ser fs) = velocityDecodeAll cfg Z f2 (ser fs) :=
   stream_agrees_lemma cfg Z fs hfs hpay f1 f2 h1 h2
 
+/-- FULL stream statement, empty payloads included: a stream of complete frames (any mix of zero-length
+    frames, frames that open to an empty payload, ordinary frames and frames either decoder rejects) in which
+    no more than 11 empty-payload frames follow each other decodes in gate to the same payload list and the
+    same ending as in Velocity ("stream ended" and "waiting for more" identified: the stream is closed).
+    The bound 11 is exactly gate's retry cap — beyond it `twelve_empty_frames_rejected` applies. -/
+theorem stream_agrees_bounded_empty_runs (cfg : Cfg) (Z : Bytes → Option Bytes) (fs : List Bytes)
+    (hfs : ∀ b ∈ fs, b.length ≤ maxFrame)
+    (hrun : ∀ pre run post, fs = pre ++ run ++ post → (∀ b ∈ run, payloadOf cfg Z b = .ok []) →
+      run.length ≤ 11)
+    (f1 f2 : Nat) (h1 : fs.length < f1) (h2 : fs.length < f2) :
+    (decodeAll cfg Z f1 (ser fs)).1 = (velocityDecodeAll cfg Z f2 (ser fs)).1 ∧
+    endNorm (decodeAll cfg Z f1 (ser fs)).2 = endNorm (velocityDecodeAll cfg Z f2 (ser fs)).2 := by
+  rw [decodeAll_ser cfg Z fs hfs f1 h1, velocityDecodeAll_ser cfg Z fs hfs f2 h2]
+  exact frames_agree_aux cfg Z fs 0
+    (fun run post h hall => by have := hrun [] run post (by simpa using h) hall; omega) hrun
+
+/-- the deviation, for every stream: 12 empty-payload frames in a row at the start of a packet read make
+    gate give up (`tooManyEmpty`), whatever follows — this is the recorded finding `empty-frame-retry-cap`,
+    and by `stream_agrees_bounded_empty_runs` it is the ONLY way the two decoders differ on complete frames. -/
+theorem twelve_empty_frames_rejected (cfg : Cfg) (Z : Bytes → Option Bytes) (run post : List Bytes)
+    (hfs : ∀ b ∈ run ++ post, b.length ≤ maxFrame)
+    (hall : ∀ b ∈ run, payloadOf cfg Z b = .ok []) (h12 : run.length = 12)
+    (fuel : Nat) (hfuel : (run ++ post).length < fuel) :
+    decodeAll cfg Z fuel (ser (run ++ post)) = ([], some .tooManyEmpty) := by
+  rw [decodeAll_ser cfg Z _ hfs fuel hfuel]
+  exact gateFrames_empty_run cfg Z run post 0 hall (by omega) (by omega)
+
 /-! ### recorded finding and repaired defects (kernel-checked witnesses) -/
 
 /-- FINDING `empty-frame-retry-cap`: 12 zero-length frames then a valid frame — Velocity yields the frame,
@@ -141,5 +174,12 @@ example : wfInt32 300 ∧ wfInt32 (-5) ∧ wfInt32 2097152 := by unfold wfInt32;
 example : ∀ b ∈ [[1, 2], [3]], b ≠ [] ∧ b.length ≤ maxFrame := by
   have : 2 ≤ maxFrame := by decide
   intro b hb; simp at hb; rcases hb with rfl | rfl <;> exact ⟨by simp, by simp; omega⟩
+
+/-- a stream with zero-length frames and an empty-envelope frame between ordinary ones meets the hypotheses
+    of `stream_agrees_bounded_empty_runs` non-trivially (threshold 0: `[0]` opens to the empty payload) -/
+example : payloadOf ⟨0, true⟩ (fun _ => none) [] = .ok [] ∧ payloadOf ⟨0, true⟩ (fun _ => none) [0] = .ok [] ∧
+    payloadOf ⟨-1, true⟩ (fun _ => none) [7] = .ok [7] := by decide +kernel
+example : decodeAll ⟨-1, true⟩ (fun _ => none) 30 (ser [[], [], [7], [], [8, 9]]) = ([[7], [8, 9]], none) := by
+  decide +kernel
 
 end Gate.C02.Props
